@@ -182,7 +182,12 @@ def check(case):
             for tag, mk in (("0-d arrays", lambda x: np.array(x)), ("vectors", lambda x: np.array([x, x / 2 + 0.25]))):
                 arrs = [mk(h) for h in Hs]
                 keep = [a.copy() for a in arrs]
-                got = call("clique_equation", clique_equation, tau, 0.35, arrs)
+                try:
+                    got = call("clique_equation", clique_equation, tau, 0.35, arrs)
+                except Violation as v_:
+                    if is_poly_limitation(v_):
+                        continue  # array-valued neighbour values not accepted: not applicable
+                    raise
                 gl = np.atleast_1d(np.asarray(got, dtype=float))
                 for j in range(len(gl)):
                     hj = [float(np.atleast_1d(a)[j if a.ndim else 0]) for a in keep]
